@@ -2,14 +2,27 @@
 every BEGIN of every implementation trace; tie: trace validation compares the complete inputs dict of every step with the model's."""
 from .. import common, sched_check, monitors, gen
 
-KINDS = {'inputs'}
+KINDS = {'inputs', 'mirror'}
+
+
+def mirror_failures(log):
+    """several entities per simulator, connected index by index: each is given what entity e is given, under its own ids -
+    no value attributed to another source entity, none lost, none taken from another entity's output"""
+    from .. import tracelib
+    out = []
+    for l in log:
+        if l[0] == 'BEGIN':
+            for (meid, mgot, mbase) in tracelib.mirror_diffs(l[4]):
+                out.append(f'{l[1]}@{tuple(l[2])}: entity {meid} is given {mgot} while entity e (connected in the same way) is given {mbase}')
+    return out
 
 
 def monitor(ctx, log, case=None, **kw):
     hv = monitors.hyp_C03(ctx, case)
+    mf = mirror_failures(log)
     if any(h.startswith('x:') for h in hv):
-        return []          # outside the property's quantifier (see DESIGN.md C03)
-    return monitors.P_C03(ctx, log, **kw)
+        return mf          # outside the property's quantifier (see DESIGN.md C03)
+    return mf + monitors.P_C03(ctx, log, **kw)
 
 
 def hyp(case, ctx):
@@ -39,6 +52,8 @@ def features(case, run, val):
 
 def case_gen(rng, k):
     case = gen.gen_parallel_case(rng) if k % 5 == 4 else gen.gen_fanin_case(rng) if k % 5 == 2 else gen.gen_case(rng, groups=True, clean=0.75)
+    if k % 4 == 3:
+        case['mirror'] = rng.choice([1, 1, 2])       # several entities per simulator, connected index by index
     if k % 3 == 1:
         # persistent outputs that are sometimes None ("no reading"): None is a value like any other
         for i, b in enumerate(case['beh']):
